@@ -103,14 +103,17 @@ func runRouting(r *rep.Report) {
 			"/a/.." + base + "/", base + "/../" + strings.TrimPrefix(base, "/") + "/", "/" + base + "//", base + "/./",
 			strings.ToUpper(base) + "/", "/other", "/", "/other" + base + "/", base + "/..", base + "/../",
 		}
-		for _, p := range paths {
+		for pi, p := range paths {
+		  for _, method := range []string{"GET", "POST", "CONNECT", "OPTIONS", "DELETE"}[:1+4*((pi+1)%2)] {
+			// (built as GET and relabelled: httptest parses a CONNECT target as an authority)
 			req := httptest.NewRequest("GET", "http://h"+p+"?transport=bogus", nil)
+			req.Method = method
 			rec := httptest.NewRecorder()
 			mux.ServeHTTP(rec, req)
 			byEngine := rec.Header().Get("X-Default-Handler") == "" && strings.Contains(rec.Body.String(), "Transport unknown")
 			byDefault := rec.Header().Get("X-Default-Handler") == "1"
 			want := routedToEngine(v, p)
-			r.Case(fmt.Sprintf("route/%s/%s", v.Name, p), true)
+			r.Case(fmt.Sprintf("route/%s/%s/%s", v.Name, method, p), true)
 			if p == base+"/sub" {
 				r.Sample(map[string]any{"kind": "routing", "attach": v.Name, "path": p, "served_by_engine": byEngine, "expected_engine": want})
 			}
@@ -126,8 +129,9 @@ func runRouting(r *rep.Report) {
 					who = fmt.Sprintf("neither (status %d)", rec.Code)
 				}
 				key := "c05-routing:" + v.Name
-				r.Violationf(key, map[string]any{"attach": v.Name, "path": p}, "attach variant %s (engine path %s, trailing slash %v): request path %q (cleaned %q) was served by %s, expected %s", v.Name, v.Base, v.Trailing, p, cleanRef(p), who, map[bool]string{true: "the engine", false: "the application's handler"}[want])
+				r.Violationf(key, map[string]any{"attach": v.Name, "path": p, "method": method}, "attach variant %s (engine path %s, trailing slash %v): %s request path %q (cleaned %q) was served by %s, expected %s", v.Name, v.Base, v.Trailing, method, p, cleanRef(p), who, map[bool]string{true: "the engine", false: "the application's handler"}[want])
 			}
+		  }
 		}
 		eng.Close()
 	}
